@@ -46,6 +46,24 @@ structure Ctx.OK (k : Ctx) (x : ℤ) : Prop where
 theorem Ctx.OK.mono {k : Ctx} {x x' : ℤ} (h : k.OK x) (hle : x' ≤ x) : k.OK x' :=
   ⟨h.world, h.hB, fun n hn => h.phi n (le_trans hn hle), fun n hn => h.nested n (lt_of_lt_of_le hn hle)⟩
 
+/-- the same execution context with another `threads` argument and print switch -/
+def Ctx.withThreads (k : Ctx) (threads : ℤ) (isPrint : Bool) : Ctx := ⟨k.W, k.B, k.c, k.f, k.pi, threads, isPrint⟩
+
+/-- the hypotheses about the context do not mention the `threads` argument or the print switch -/
+theorem Ctx.OK.withThreads {k : Ctx} {x : ℤ} (h : k.OK x) (threads : ℤ) (isPrint : Bool) : (k.withThreads threads isPrint).OK x :=
+  ⟨h.world, h.hB, h.phi, h.nested⟩
+
+/-- two outcomes that are each `ok n` or `badRun`: any two returned values agree -/
+theorem ok_unique {e₁ e₂ : TM Int} {n : ℤ} (h₁ : e₁ = .ok n ∨ e₁ = badRun) (h₂ : e₂ = .ok n ∨ e₂ = badRun) {v₁ v₂ : ℤ}
+    (hv₁ : e₁ = .ok v₁) (hv₂ : e₂ = .ok v₂) : v₁ = v₂ := by
+  rcases h₁ with a | a
+  · rcases h₂ with b | b
+    · cases a.symm.trans hv₁
+      cases b.symm.trans hv₂
+      rfl
+    · cases b.symm.trans hv₂
+  · cases a.symm.trans hv₁
+
 /-- is the argument beyond `INT64_MAX` (the route through `pi_gourdon_128`, `uint32_t` factor tables)? -/
 def isWide (x : ℤ) : Bool := decide ((PiApi.int64Max : ℤ) < x)
 
